@@ -43,7 +43,7 @@ def plain(obj):
 		return [plain(v) for v in obj]
 	if obj is None or isinstance(obj, (bool, int, str)):
 		if isinstance(obj, int) and abs(obj) > 2**53:
-			return repr(obj)
+			return short(obj, 80) if obj.bit_length() < 10000 else f"<int of {obj.bit_length()} bits>"      # (beyond the int-to-str digit limit an int has no repr)
 		return obj
 	if isinstance(obj, float):
 		return obj if obj == obj and abs(obj) != float("inf") else repr(obj)
